@@ -15,3 +15,4 @@ import LdkModel.Props.C06
 #print axioms Ldk.C06.rebroadcast_reissues_every_pending_claim
 #print axioms Ldk.C06.revoked_fully_punished_after_reorgs
 #print axioms Ldk.C06.world_covers_every_revoked_output
+#print axioms Ldk.C06.second_stage_tx_always_matched
